@@ -76,8 +76,10 @@ def check(F, rep, prop, floor):
             continue
         p, want = expected(F, al, by_name, stds)
         if p is None:
+            # a name without a naming rule (a new convenience alias) is not a behaviour change: noted, not reported; the floors keep
+            # the aliases that exist today under the rule
             if prop == "C02":
-                rep.fail("ALIAS", al["path"], want, _loc(F, al))
+                rep.note("alias without a naming rule (not checked): %s = %s" % (al["path"], F.S[al["ty"]]))
             continue
         if p != prop:
             continue
